@@ -463,27 +463,124 @@ Qed.
 (* ---------------------------------------------------------------- the fast-forward while a wallet is being imported *)
 
 (* Start's fast-forward on the multi-wallet layer ([start_sync_ff], Ledger/ResumeFF.v: SetSyncedTo
-   for all but the last ff heights when no wallet is READY, then Remove.v's Start).  Batch size 2,
+   for all but the last ff heights when no wallet is READY, then Remove.v's Start; the switch
+   [f_ff_check] of Import.v's [fixes]: false = the code as found, true = as repaired: the stored
+   tip is compared with the node's block of that height first, and if it was replaced the next
+   block goes through processConnectedBlock before anything is fast-forwarded).
+   The code as found ([before_ff_check]: every earlier repair, not this one).  Batch size 2,
    ff = 2: the wallet is restored on chain A (blocks 1 and 2 pay it 5 and 7); the process stops after
    the first rescan batch (cursor 2); the node abandons blocks 2..4 and grows to height 8 on a
    branch that never pays the wallet; restart: the fast-forward writes the node's sync records on
    top of the abandoned ones, the coin of the abandoned block 2 stays, the cursor stays at 2, the
    rescan finishes: the wallet is ready and reports 12 where the chain pays 5.  Without the
    fast-forward (ff = 2000) the same restart processes the reorganisation and ends correct.
-   Reproduced on the real code with batch 1000 / ff 2000 (harness/cmd/ffprobe in the working copy). *)
-Require MW.Ledger.ResumeFF.
+   Reproduced on the real code (batch 1000 / ff 2000) by the import-only family of harness/cmd/c06
+   (chain of 1092 blocks, crash between the two rescan batches, node reorganised at 873 and grown to
+   3120 while the wallet is down); repaired in /repo. *)
+Require MW.Ledger.ResumeFF MW.Ledger.ResumeFFProofs.
+Require Import MW.Ledger.Proofs4 MW.Ledger.ImportProofs MW.Ledger.ImportProofs2.
 Theorem C06_ff_stale_import_refuted :
   Import.status_of ResumeFF.stF1 1 = Some (Import.WImporting 2) /\ ResumeFF.has_ready ResumeFF.stF1 = false /\
   synced (x_w ResumeFF.stF1) = [(4, 4%N); (3, 3%N); (2, 2%N); (1, 1%N); (0, 0%N)] /\
-  ResumeFF.start_sync_ff repaired ResumeFF.pF 2 ResumeFF.chainC (xreopen ResumeFF.stF1) = XOk (ResumeFF.stF2 2) /\
-  synced (x_w (ResumeFF.stF2 2)) =
+  ResumeFF.tip_on_node ResumeFF.chainC (xreopen ResumeFF.stF1) = false /\
+  ResumeFF.start_sync_ff ResumeFF.before_ff_check ResumeFF.pF 2 ResumeFF.chainC (xreopen ResumeFF.stF1)
+    = XOk (ResumeFF.stF2 ResumeFF.before_ff_check 2) /\
+  synced (x_w (ResumeFF.stF2 ResumeFF.before_ff_check 2)) =
     [(8, 18%N); (7, 17%N); (6, 16%N); (5, 15%N); (4, 4%N); (3, 3%N); (2, 2%N); (1, 1%N); (0, 0%N)] /\
-  Import.status_of (ResumeFF.stF2 2) 1 = Some (Import.WImporting 2) /\
-  Import.status_of (ResumeFF.stF3 2) 1 = Some Import.WReady /\ fst (tip (x_w (ResumeFF.stF3 2))) = 8 /\
-  r_total (xreport (ResumeFF.stF3 2) 1) = 12 /\
-  r_total (spec_report ResumeFF.pF (key_owner (ResumeFF.stF3 2)) ResumeFF.chainC 1) = 5 /\
-  Import.status_of (ResumeFF.stF2 2000) 1 = Some (Import.WImporting 1) /\
-  Import.status_of (ResumeFF.stF3 2000) 1 = Some Import.WReady /\
-  xreport (ResumeFF.stF3 2000) 1 = spec_report ResumeFF.pF (key_owner (ResumeFF.stF3 2000)) ResumeFF.chainC 1.
+  Import.status_of (ResumeFF.stF2 ResumeFF.before_ff_check 2) 1 = Some (Import.WImporting 2) /\
+  Import.status_of (ResumeFF.stF3 ResumeFF.before_ff_check 2) 1 = Some Import.WReady /\
+  fst (tip (x_w (ResumeFF.stF3 ResumeFF.before_ff_check 2))) = 8 /\
+  r_total (xreport (ResumeFF.stF3 ResumeFF.before_ff_check 2) 1) = 12 /\
+  r_total (spec_report ResumeFF.pF (key_owner (ResumeFF.stF3 ResumeFF.before_ff_check 2)) ResumeFF.chainC 1) = 5 /\
+  Import.status_of (ResumeFF.stF2 ResumeFF.before_ff_check 2000) 1 = Some (Import.WImporting 1) /\
+  Import.status_of (ResumeFF.stF3 ResumeFF.before_ff_check 2000) 1 = Some Import.WReady /\
+  xreport (ResumeFF.stF3 ResumeFF.before_ff_check 2000) 1 =
+    spec_report ResumeFF.pF (key_owner (ResumeFF.stF3 ResumeFF.before_ff_check 2000)) ResumeFF.chainC 1.
 Proof. exact ResumeFF.ff_stale_import_refuted. Qed.
 Print Assumptions C06_ff_stale_import_refuted.
+
+(* the same crash and the same margin on the code as repaired: block 15 (height 5) goes through the
+   reorganisation path (rollback to the fork at height 1, cursor pulled back to 1), the rest as before;
+   the rescan finishes and the report is the specification *)
+Example C06_ff_stale_import_repaired :
+  ResumeFF.start_sync_ff repaired ResumeFF.pF 2 ResumeFF.chainC (xreopen ResumeFF.stF1) = XOk (ResumeFF.stF2 repaired 2) /\
+  synced (x_w (ResumeFF.stF2 repaired 2)) =
+    [(8, 18%N); (7, 17%N); (6, 16%N); (5, 15%N); (4, 14%N); (3, 13%N); (2, 12%N); (1, 1%N); (0, 0%N)] /\
+  Import.status_of (ResumeFF.stF2 repaired 2) 1 = Some (Import.WImporting 1) /\
+  Import.status_of (ResumeFF.stF3 repaired 2) 1 = Some Import.WReady /\
+  r_total (xreport (ResumeFF.stF3 repaired 2) 1) = 5 /\
+  xreport (ResumeFF.stF3 repaired 2) 1 = spec_report ResumeFF.pF (key_owner (ResumeFF.stF3 repaired 2)) ResumeFF.chainC 1.
+Proof. exact ResumeFF.ff_stale_import_repaired. Qed.
+
+(* T11 = C06 for a restore in progress, Start with its fast-forward as repaired (proofs:
+   Ledger/ResumeFFProofs.v over C07's invariant [xinv p g U w keys c n st] of Ledger/ImportProofs2.v:
+   the handler follows the chain c, the node is on n, the store holds exactly the history of wallet w
+   on c up to the rescan cursor — or what a batch read on a chain the handler had not been told of).
+   From ANY such state — any cursor, the handler's chain c and the node's chain n ANY two well-formed
+   chains on the same genesis (the node reorganised at any depth below, at or above the cursor, grown
+   or shrunk while the process was down; n not a bare genesis), any margin ff >= 0: Start succeeds
+   and the handler then follows the node's chain, the store holding exactly the wallet's history of
+   THAT chain up to the (pulled-back) cursor.  No premise on the crash point. *)
+Theorem C06_ff_restart_any_chain : forall p g U w keys ff c n st,
+  (forall b1 b2, In b1 U -> In b2 U -> b_id b1 = b_id b2 -> b1 = b2) ->
+  (forall sh v, lookupN keys sh = Some v -> v = w) ->
+  0 <= ff -> ninv g U n -> (2 <= length n)%nat -> xinv p g U w keys c n st ->
+  exists st', ResumeFF.start_sync_ff repaired p ff n (xreopen st) = XOk st' /\ xinv p g U w keys n n st'.
+Proof. exact ResumeFFProofs.ff_restart_any_chain. Qed.
+Print Assumptions C06_ff_restart_any_chain.
+
+(* T12: the same after any history: a wallet is being restored; the node and the handler do whatever
+   C07's event system allows (blocks attached and detached at any depth, announcements of any block
+   processed or still outstanding, rescan batches: [xwf]); at ANY point the process stops and is
+   restarted on the same store, the node being where it is.  Start as repaired (fast-forward, any
+   margin): succeeds, the handler is on the node's tip, and m further rescan batches make the wallet
+   ready — as soon as cursor + m * B exceeds the height of the node's chain — with exactly the
+   ledger and the report of the node's chain: the state of a run that never stopped. *)
+Theorem C06_ff_restart_resumes : forall p g U w pass sh shs B cap n0 h ff m,
+  (forall b1 b2, In b1 U -> In b2 U -> b_id b1 = b_id b2 -> b1 = b2) -> 0 < B -> 0 <= ff ->
+  wf_chain n0 -> from_g g n0 -> incl n0 U ->
+  xwf p g U w B cap (xrun repaired p B cap n0 [XImportStart w pass (sh :: shs)]) h ->
+  let s := xrun repaired p B cap n0 (XImportStart w pass (sh :: shs) :: h) in
+  let own := kown w (keys_of w (sh :: shs)) in
+  (2 <= length (xs_node s))%nat ->
+  exists st', ResumeFF.start_sync_ff repaired p ff (xs_node s) (xreopen (xs_st s)) = XOk st' /\
+    snd (tip (x_w st')) = b_id (last (xs_node s) g) /\
+    ((forall k, Import.status_of st' w = Some (Import.WImporting k) -> chain_height (xs_node s) < k + Z.of_nat m * B) ->
+     let st'' := batches repaired p B (xs_node s) st' w m in
+     Import.status_of st'' w = Some Import.WReady /\
+     ledger_of_chain p true own (xs_node s) = Ok (x_w st'') /\
+     xreport st'' w = spec_report p own (xs_node s) w).
+Proof. exact ResumeFFProofs.ff_restart_moving. Qed.
+Print Assumptions C06_ff_restart_resumes.
+
+(* non-vacuity of T12 on the history of the witness above: restore on chain A, one batch (B = 2, cursor
+   2), the node abandons blocks 2..4 and grows to height 8 (chain C); every premise holds, the restart
+   is one that takes the fast-forward branch (no wallet ready, ff = 1 < 8, the stored tip 4 + 1 < 8 - 1)
+   over a stored tip that is NOT on the node's chain, and 4 batches finish the restore with the
+   report 5 that chain C pays *)
+Definition U_ff : list block := ResumeFF.chainA ++ skipn 2 ResumeFF.chainC.
+Definition hist_ff : list xevent :=
+  [XBatch 1; XDetach; XDetach; XDetach] ++ map XAttach (skipn 2 ResumeFF.chainC).
+
+Example C06_ff_restart_instance :
+  (forall b1 b2, In b1 U_ff -> In b2 U_ff -> b_id b1 = b_id b2 -> b1 = b2) /\
+  wf_chain ResumeFF.chainA /\ from_g ResumeFF.gF ResumeFF.chainA /\ incl ResumeFF.chainA U_ff /\
+  xwf ResumeFF.pF ResumeFF.gF U_ff 1 2 20000 (xrun repaired ResumeFF.pF 2 20000 ResumeFF.chainA [XImportStart 1 7 [1%N]]) hist_ff /\
+  let s := xrun repaired ResumeFF.pF 2 20000 ResumeFF.chainA (XImportStart 1 7 [1%N] :: hist_ff) in
+  xs_node s = ResumeFF.chainC /\ xreopen (xs_st s) = xreopen ResumeFF.stF1 /\
+  ResumeFF.has_ready (xs_st s) = false /\ ResumeFF.tip_on_node (xs_node s) (xreopen (xs_st s)) = false /\
+  match ResumeFF.start_sync_ff repaired ResumeFF.pF 1 (xs_node s) (xreopen (xs_st s)) with
+  | XOk st' =>
+      synced (x_w st') = [(8, 18%N); (7, 17%N); (6, 16%N); (5, 15%N); (4, 14%N); (3, 13%N); (2, 12%N); (1, 1%N); (0, 0%N)] /\
+      Import.status_of st' 1 = Some (Import.WImporting 1) /\
+      r_total (xreport (batches repaired ResumeFF.pF 2 (xs_node s) st' 1 4) 1) = 5
+  | _ => False
+  end.
+Proof.
+  split; [apply ids_b_sound; vm_compute; reflexivity|].
+  split; [apply wf_chain_b_sound; vm_compute; reflexivity|].
+  split; [eexists; reflexivity|].
+  split; [apply incl_appl; apply incl_refl|].
+  split; [apply xwf_b_sound; vm_compute; reflexivity|].
+  vm_compute. repeat split; reflexivity.
+Qed.
